@@ -1,4 +1,5 @@
 import Txtpp.Lemmas.PathNameFacts
+import Txtpp.Lemmas.SeenClosure
 /-!
 # Property C11 — exactly the requested sources are processed and outputs are named correctly
 
@@ -40,6 +41,16 @@ theorem lookalikes_not_txtpp :
     isTxtppFile ['a', '.', 't', 'x', 't', 'p', 'p', '.', 'b', '.', 'c'] = false ∧
     isTxtppFile ['a', '.', 't', 'x', 't'] = false ∧ isTxtppFile ['a', '.', 't', 'x', 't', 'p', 'p', '~'] = false :=
   PathName.lookalikes_not_txtpp
+
+/-- the processed set is contained in the dependency closure of the inputs (named and scanned
+files): the coordinator never processes a file that is not reachable from an input -/
+theorem processed_within_closure (w : Coord.World) (inputs : List Coord.File) (s : Coord.St) (h : Coord.Reach w inputs s) :
+    ∀ f ∈ s.seen, ∃ i ∈ inputs, Coord.Path w.deps i f := Coord.seen_reachable w inputs s h
+
+/-- … and at a successful exit it is all of it that was seen, each finished exactly once -/
+theorem processed_once_each (w : Coord.World) (inputs : List Coord.File) (s : Coord.St) (h : Coord.Reach w inputs s) :
+    s.dm.fin.Nodup ∧ ∀ f ∈ s.dm.fin, f ∈ s.seen :=
+  ⟨(Coord.reach_inv w inputs s h).finND, (Coord.reach_inv w inputs s h).finSeen⟩
 
 example : removeTxtpp ['l', 'i', 'b', '.', 'm', 'i', 'n', '.', 't', 'x', 't', 'p', 'p', '.', 'j', 's'] =
     some ['l', 'i', 'b', '.', 'm', 'i', 'n', '.', 'j', 's'] := by decide
